@@ -97,6 +97,7 @@ Dom(ix) == {e.p : e \in ix}
 Functional(ix) == Cardinality(Dom(ix)) = Cardinality(ix)        \* no two rows with the same plain
 OverrideD(ix, es, d) == {e \in ix : e.p \notin d} \cup es       \* (TLC evaluates an argument once, a definition at every use)
 Override(ix, es) == OverrideD(ix, es, Dom(es))
+NoneOf(ix, S) == {e \in ix : e.p \in S} = {}                     \* no row of ix for a plain of S
 SubsetEq(S, T) == Cardinality(S \cup T) = Cardinality(T)         \* S \subseteq T for finite sets, n log n for TLC
 PlainsOf(m) == Dom(m.ents)
 AllEnts(M) == UNION {m.ents : m \in M}
@@ -198,8 +199,8 @@ FoldRecord(h, js, els, i, k) ==
 
 RecvBatch(ps, k) ==
   /\ Serving /\ recv = NoRecv /\ k >= 1 /\ nextId + 2 * k - 1 <= MaxId
-  /\ {e \in index : e.p \in {ps[i] : i \in 1..k}} = {}
-  /\ \A i \in 1..k : ps[i] \notin Forge /\ \A j \in 1..k : i # j => ps[i] # ps[j]
+  /\ NoneOf(index, {ps[i] : i \in 1..k})
+  /\ Cardinality({ps[i] : i \in 1..k}) = k /\ \A i \in 1..k : ps[i] \notin Forge
   /\ LET C(i) == nextId + 2 * (i - 1)
          M(i) == nextId + 2 * (i - 1) + 1 IN
      /\ enc' = enc \cup {[id |-> C(i), p |-> ps[i]] : i \in 1..k}
@@ -343,9 +344,10 @@ FetchOutcome(p) ==
                           ELSE "fail"
                    ELSE IF PlainOfCipher(c) = p THEN "orig" ELSE "wrong"
 
+MacroStep == Macro /\ \E p, q \in Plain : p # q /\ RecvBatch(<<p, q>>, 2)
 ENext == \/ \E p \in Plain : RecvStart(p)
          \/ RecvBlob \/ RecvMeta \/ RecvIndex \/ RecvAck
-         \/ Macro /\ \E p, q \in Plain : p # q /\ RecvBatch(<<p, q>>, 2)
+         \/ MacroStep
          \/ \E j \in jobs : JobGetOk(j)
          \/ \E j \in jobs : JobAbandon(j)
          \/ \E j \in jobs : JobUpload(j)
